@@ -215,6 +215,7 @@ Fixpoint rl (e : expr) : Z :=
       | RBrk x => Z.min p (rl x)
       end in
   match e with
+  | EIdent true _ => lvl_call - 1      (* a quoted identifier is not a function name: no call may follow *)
   | ENot x => Z.min lvl_not (rl x)
   | ESlice _ _ _ _ r => rr r lvl_star
   | EListProj _ r => rr r lvl_star
